@@ -28,8 +28,13 @@ def root_field(e, self_ids=()):
 
 def direct_writes(fn):
     W = set()
+    elems = {}    # element variable of a range-for -> what it ranges over: writing the element writes the container
+    walk(fn["body"], lambda n: elems.__setitem__((n.get("var") or {}).get("d"), n.get("range")) if n.get("k") == "RangeFor" and (n.get("var") or {}).get("ref", True) else None)
 
     def add(x):
+        sx = strip(x)
+        if isinstance(sx, dict) and sx.get("k") == "Ref" and sx.get("d") in elems and elems[sx["d"]] is not None:
+            x = elems[sx["d"]]
         r = root_field(x)
         if r:
             W.add(r)
@@ -61,6 +66,8 @@ def spec():
 def obligations(facts, records=None):
     sp = spec()
     fns = functions_by(facts)
+    from astu import root_views
+    views = root_views(fns)     # private void helpers are seen through; a function that is only such a helper is not a unit
     out = []
     for row in sp["cowrite"]:
         rect = "datasketches::" + row["record"]
@@ -68,7 +75,8 @@ def obligations(facts, records=None):
             continue
         a, b = row["a"], row["b"]
         n = 0
-        for pat, fn in sorted(fns.items()):
+        for fn0, body in views:
+            fn = dict(fn0, body=body)
             if fn.get("rect") != rect or fn["kind"] not in ("method",) or fn.get("special") or fn.get("const"):
                 continue
             W = {f for (o, f) in direct_writes(fn) if o == "this"}
